@@ -115,6 +115,9 @@ func c15AssignProgram(kinds []int, shadow []bool, form int) (string, []string) {
 }
 
 func c15AssignRun(c *core.Ctx) {
+	if c15Skip(c, "assign") {
+		return
+	}
 	dir := core.Scratch("c15assign")
 	env := drv.NewText(dir)
 	defer env.Close()
